@@ -110,6 +110,10 @@ func c10RandScript(r *rand.Rand) *c01Script {
 		sc.Close = true
 		sc.Phase[8] = c10RandOps(r, 1+r.Intn(3), sc, false)
 	}
+	// connect-time server-side subscription (drawn last: the other scripts of a seed stay what they were)
+	if !sc.Server && r.Intn(3) == 0 {
+		sc.Connect = true
+	}
 	return sc
 }
 
@@ -143,6 +147,12 @@ func c10Corpus() []*c01Script {
 		{JL: true, Batch: true, Close: true, Phase: c01Phases(map[int][]c01Op{6: c01Ops(P(false), D(0), J, D(0))})},
 		// 11: server API unsubscribe with the broadcast parked (push 2000 after the publication)
 		{Pos: true, JL: true, Phase: c01Phases(map[int][]c01Op{6: c01Ops(P(false), c01Op{K: "deliverx", Unsub: 2}, J, D(0))})},
+		// 12: connect-time server-side subscription: joins and offset publications inside the connect window are held back
+		{Connect: true, Pos: true, JL: true, Unsub: 2, Phase: c01Phases(map[int][]c01Op{2: c01Ops(J, D(0), P(false), D(0)), 6: c01Ops(J, D(0), P(false), D(0), L, D(0)), 7: c01Ops(P(false), D(0), J, D(0))})},
+		// 13: connect-time, FINDING (a): offset-less publication between hub registration and the connect reply
+		{Connect: true, JL: true, Phase: c01Phases(map[int][]c01Op{2: c01Ops(P0, D(0)), 6: c01Ops(P(false), D(0))})},
+		// 14: connect-time with batching, client unsubscribe with the broadcast parked
+		{Connect: true, Pos: true, Batch: true, Phase: c01Phases(map[int][]c01Op{6: c01Ops(P(false), c01Op{K: "deliverx", Unsub: 1}, c01Op{K: "flush"})})},
 	}
 }
 
@@ -200,6 +210,9 @@ func TestVerifC10(t *testing.T) {
 			class = "client"
 			if sc.Server {
 				class = "server"
+			}
+			if sc.Connect {
+				class = "connect"
 			}
 			if sc.Pos {
 				class += "/positioned"
